@@ -105,6 +105,25 @@ KeepChoices(mode, a, p, cur, mu, n, var) ==
         edge == { w \in cur : p[a][w] # 0 /\ InsideEq(p[a][w], mu, n, var) }
     IN  IF mode = "P" THEN { sure \cup e : e \in SUBSET edge } ELSE {sure \cup edge}
 
+\* decision of one iteration for a given pair of mean-curve peaks: the set of possible verdicts
+\* ("stop" = return now, "cont" = iterate again)
+Verdicts(mode, mub, varb, mua, vara, mcb, mca) ==
+    LET db == RAbs(RSub(mub, R(mcb)))
+    IN  IF RIsZero(db) \/ RIsZero(varb) \/ RIsZero(vara) THEN {"stop"}
+        ELSE
+        LET da   == RAbs(RSub(mua, R(mca)))
+            dd   == RDiv(RAbs(RSub(da, db)), db)
+            dLt  == RLt(dd, Hundredth)
+            dEq  == REq(dd, Hundredth)
+            sLt  == SqrtDiffLt(vara, varb, SThr)
+            sEq  == SqrtDiffEq(vara, varb, SThr)
+            conv == dLt /\ sLt
+            tie  == (dLt \/ dEq) /\ (sLt \/ sEq) /\ ~conv
+        IN  IF DFree /\ mode = "P" THEN (IF sLt \/ sEq THEN {"stop", "cont"} ELSE {"cont"})
+            ELSE IF conv THEN {"stop"}
+            ELSE IF tie /\ mode = "P" THEN {"stop", "cont"}
+            ELSE {"cont"}
+
 RECURSIVE FdwraIter(_, _, _, _, _, _, _, _, _)
 FdwraIter(mode, a, p, r, n, maxit, k, mw, mp) ==
     \* mw, mp : current masks of azimuth a (functions Win -> BOOLEAN)
@@ -117,46 +136,30 @@ FdwraIter(mode, a, p, r, n, maxit, k, mw, mp) ==
     ELSE
     LET mub  == Mean(Afn, PkIdx(a, p))
         varb == Var1(Afn, PkIdx(a, p))
+        McB  == McChoices(mode, a, Acv, r)
     IN
+    (IF 0 \in McB THEN undef ELSE {}) \cup
     UNION {
-      IF mcb = 0 THEN undef
-      ELSE
-      UNION {
         LET mw2 == [w \in Win |-> IF w \in cur THEN w \in keep ELSE mw[w]]
             mp2 == [w \in Win |-> IF w \in cur THEN w \in keep ELSE mp[w]]
             A2  == { w \in Win : mp2[w] /\ p[a][w] # 0 }
             Ac2 == { w \in Win : mw2[w] }
+            und2 == {[st |-> "undef", it |-> k, vw |-> mw2, vp |-> mp2]}
         IN
-        IF Cardinality(A2) < 2 THEN {[st |-> "undef", it |-> k, vw |-> mw2, vp |-> mp2]}
+        IF McB \ {0} = {} THEN {}
+        ELSE IF Cardinality(A2) < 2 THEN und2
         ELSE
         LET mua  == Mean(A2, PkIdx(a, p))
             vara == Var1(A2, PkIdx(a, p))
-            db   == RAbs(RSub(mub, R(mcb)))
+            McA  == McChoices(mode, a, Ac2, r)
             done == {[st |-> "ok", it |-> k, vw |-> mw2, vp |-> mp2]}
-        IN
-        UNION {
-          IF mca = 0 THEN {[st |-> "undef", it |-> k, vw |-> mw2, vp |-> mp2]}
-          ELSE
-          IF RIsZero(db) \/ RIsZero(varb) \/ RIsZero(vara) THEN done
-          ELSE
-          LET da    == RAbs(RSub(mua, R(mca)))
-              dd    == RDiv(RAbs(RSub(da, db)), db)
-              dLt   == RLt(dd, Hundredth)
-              dEq   == REq(dd, Hundredth)
-              sLt   == SqrtDiffLt(vara, varb, SThr)
-              sEq   == SqrtDiffEq(vara, varb, SThr)
-              conv  == dLt /\ sLt
-              tie   == (dLt \/ dEq) /\ (sLt \/ sEq) /\ ~conv
-              more  == IF k >= maxit THEN done
-                       ELSE FdwraIter(mode, a, p, r, n, maxit, k + 1, mw2, mp2)
-          IN  IF DFree /\ mode = "P"
-              THEN (IF sLt \/ sEq THEN done \cup more ELSE more)
-              ELSE IF conv THEN done
-              ELSE IF tie /\ mode = "P" THEN done \cup more
-              ELSE more
-          : mca \in McChoices(mode, a, Ac2, r) }
+            vs   == UNION { Verdicts(mode, mub, varb, mua, vara, mcb, mca) : mcb \in McB \ {0}, mca \in McA \ {0} }
+        IN  (IF 0 \in McA THEN und2 ELSE {})
+            \cup (IF "stop" \in vs THEN done ELSE {})
+            \cup (IF "cont" \in vs
+                  THEN (IF k >= maxit THEN done ELSE FdwraIter(mode, a, p, r, n, maxit, k + 1, mw2, mp2))
+                  ELSE {})
         : keep \in KeepChoices(mode, a, p, cur, mub, n, varb) }
-      : mcb \in McChoices(mode, a, Acv, r) }
 
 Fdwra1(mode, a, p, r, n, maxit, mw, mp) == FdwraIter(mode, a, p, r, n, maxit, 1, mw, mp)
 
